@@ -43,6 +43,7 @@ type entity struct {
 	artifact []byte // pre-existing artifact file (an imported issuer): the entity itself is not generated and yields no case
 	keyfile  []byte // pre-existing artifact file that holds only a private key: the certificate is generated for that key
 	keyPoint []byte // the public point of that key (04 || X || Y, fixed width), computed by the harness
+	dangling bool   // the configuration names a profile no file defines (only look-alikes in other capitalisation exist): must be refused
 }
 
 // a dotted object identifier with an arc of at least 2^31 (ten digits and more; 2147483648 is the smallest)
@@ -467,6 +468,16 @@ func runHierarchy(tag string, ents []entity, profiles []*Profile) int {
 			break // BulkUpdate stops at the first error: later entities were never attempted
 		}
 		if e.artifact != nil {
+			continue
+		}
+		if e.dangling {
+			// profile names are identifiers: a reference that matches no defined name exactly is an unknown profile
+			if obs[e.name] != nil {
+				fmt.Fprintf(out, "SELFFAIL %s %s: a certificate was written although the configuration references profile %q, which no file defines (defined: look-alikes in other capitalisation)\n", tag, e.name, e.cfg.Profile)
+			}
+			if firstFailed < 0 {
+				firstFailed = ei
+			}
 			continue
 		}
 		o := obs[e.name]
